@@ -22,7 +22,7 @@ RULE_TEXT = ('runs = seeded random: workload A = (text over an alphabet with 2-/
              'text from literal / file / program). Non-trivial = at least two value-returning accesses (A) or a complete '
              'family (B) were compared; distinct = (workload, source kind, transformer chain, access sequence, buffer '
              'class relative to the text length, character classes present).')
-REACH_PROBES = ['C_one_transformer_many_texts', 'A_literal', 'A_file', 'A_program', 'A_varying_program', 'A_freeze_then_access', 'A_access_then_freeze',
+REACH_PROBES = ['C_one_transformer_many_texts', 'literal_as_here_document', 'A_literal', 'A_file', 'A_program', 'A_varying_program', 'A_freeze_then_access', 'A_access_then_freeze',
                 'A_partial_lines', 'A_text_longer_than_buffer', 'A_text_fits_buffer',
                 'A_multibyte', 'A_cr', 'A_unicode_line_separators', 'A_no_final_newline', 'A_empty_text',
                 'A_family_line_based', 'A_family_cached', 'A_run_transformer', 'A_write_to_spooled', 'A_as_file',
@@ -208,9 +208,12 @@ def plan_a(seed, tier, g):
             ops.append(['lines_part', g.randint(0, 3)])
         else:
             ops.append([op])
-    return {'format': 1, 'property': PROPERTY, 'engine': 'c14', 'run_seed': seed, 'tier': tier, 'workload': 'A',
+    plan = {'format': 1, 'property': PROPERTY, 'engine': 'c14', 'run_seed': seed, 'tier': tier, 'workload': 'A',
             'knobs': {'mem_buff_size': knob}, 'entry': 'object', 'T': T, 'kind': kind, 'chain': chain, 'ops': ops,
             'classes': classes, 'sweep': False}
+    if kind == 'lit' and not chain and heredoc_able(T) and kernel.stream(seed, 'form').random() < 0.6:
+        plan['lit_form'] = 'heredoc'  # the literal is written as a here-document
+    return plan
 
 
 def plan_b(seed, tier, g):
@@ -264,6 +267,8 @@ def plan_b(seed, tier, g):
         if mk == 'equals_lit' and ('\r' in other or "'" in other):
             mk = 'equals_file'
         m = {'kind': mk, 'other': other}
+        if mk == 'equals_lit' and heredoc_able(other) and g.random() < 0.5:
+            m['form'] = 'heredoc'  # the literal is written as a here-document: every line as it stands, white space included
     knobs = g.sample([1, 3, 8, 64, 8192], 2)
     return {'format': 1, 'property': PROPERTY, 'engine': 'c14', 'run_seed': seed, 'tier': tier, 'workload': 'B',
             'knobs': {'mem_buff_size': knobs[0]}, 'knob_list': knobs, 'entry': 'cli', 'T': T, 'matcher': m,
@@ -274,7 +279,9 @@ def plan_b(seed, tier, g):
 
 def _syntax_a(plan):
     T, kind = plan['T'], plan['kind']
-    if kind == 'lit':
+    if kind == 'lit' and plan.get('lit_form') == 'heredoc' and heredoc_able(T) and not plan['chain']:
+        syntax = '<<EOF\n' + T + 'EOF\n'
+    elif kind == 'lit':
         syntax = "'" + T + "'"
     elif kind == 'file':
         syntax = '-contents-of src.txt'
@@ -447,6 +454,8 @@ def _probes_a(plan, hist):
     pr = {}
     kind = plan['kind']
     pr[{'lit': 'A_literal', 'file': 'A_file', 'prog': 'A_program', 'varying': 'A_varying_program'}[kind]] = 1
+    if plan.get('lit_form') == 'heredoc' and heredoc_able(plan['T']) and not plan['chain']:
+        pr['literal_as_here_document'] = 1
     ops = [o[0] for o in plan['ops']]
     value_ops = ('str', 'lines', 'lines_part', 'file', 'write_file', 'write_spooled')
     if 'freeze' in ops:
@@ -511,7 +520,14 @@ def _matcher_syntax(m, w):
         return 'equals -contents-of -rel-home exp.txt'
     if k == 'equals_prog':
         return 'equals -stdout-from % expprog\n '
+    if m.get('form') == 'heredoc' and heredoc_able(m['other']):
+        return 'equals <<EOF\n%sEOF\n ' % m['other']
     return "equals '%s'" % m['other']
+
+
+def heredoc_able(text: str) -> bool:
+    """Can the text be written as a here-document (whose contents are its lines, each ended by a new-line)?"""
+    return (text == '' or text.endswith('\n')) and 'EOF' not in text.split('\n') and '\r' not in text
 
 
 def expected_b(plan):
